@@ -34,6 +34,8 @@ _SPECS = {}
 
 
 def _clear_caches():
+    from . import shims
+    shims.PORT_MAX = 65535
     try:
         from cisco_acl.wildcard import Wildcard
         cc = getattr(Wildcard.ipnets, "cache_clear", None)
@@ -136,9 +138,15 @@ def match_known(known, prop, v):
 # ------------------------------------------------------------------ main
 
 
+def _order_dependent(v):
+    return any(k.startswith("setorder#") for k in v["choices"])
+
+
 def _sig(v):
-    """Group counterexamples: same harness, label and structural choices."""
-    return json.dumps([v["spec"], v["label"], v["choices"]], sort_keys=True)
+    """Group counterexamples: same harness, label and structural choices (set-order choices of the engine are not
+    structure of the input: all orders of one input fall into one group)."""
+    return json.dumps([v["spec"], v["label"], {k: x for k, x in v["choices"].items() if not k.startswith("setorder#")}],
+                      sort_keys=True)
 
 
 def run_property(modname, tier="quick", only=None, max_shards=None, verbose=False, write_evidence=True):
@@ -247,7 +255,7 @@ def run_property(modname, tier="quick", only=None, max_shards=None, verbose=Fals
         for v in agg[s.name]["violations"]:
             groups.setdefault(_sig(v), []).append(v)
     rjobs = []
-    per_group = int(os.environ.get("VERIF_REPLAY_PER_GROUP", "12"))
+    per_group = int(os.environ.get("VERIF_REPLAY_PER_GROUP", "60"))
     for sig, vs in groups.items():
         for v in vs[:per_group]:
             rjobs.append(v)
@@ -273,6 +281,8 @@ def run_property(modname, tier="quick", only=None, max_shards=None, verbose=Fals
             known_hits.setdefault(k["what"], []).append(v)
         else:
             new_violations.append(v)
+    order_only = [u for u in unconfirmed if _order_dependent(u[0]) and not u[1]]
+    unconfirmed = [u for u in unconfirmed if not (_order_dependent(u[0]) and not u[1])]
     for v, err in unconfirmed:
         problems.append(f"{v['spec']}: counterexample for claim {v['label']!r} did not reproduce on the real library "
                         f"(encoding suspect) choices={v['choices']} values={v['values']} {err}")
@@ -328,6 +338,7 @@ def run_property(modname, tier="quick", only=None, max_shards=None, verbose=Fals
             solver_s=round(stats_tot["solver_s"], 2), solver="z3 " + _z3v(),
             paths_validated=len(vjobs), validation_mismatches=len(mismatches),
             counterexamples_replayed=len(rjobs), counterexample_groups=len(groups),
+            order_dependent_counterexamples_not_reproduced_on_this_cpython=len(order_only),
             known_findings_hit=sorted(known_hits), inconclusive=problems,
             explore_wall_s=round(explore_s, 1), validate_wall_s=round(validate_s, 1),
             repo=REPO, processes=NPROC,
